@@ -280,6 +280,12 @@ impl<'a> UserModel<'a> {
             ==> r.is_ok(),
         on_grid(start_row as int, start_column as int) && on_grid(end_row as int, end_column as int)
             && !old(self).model.workbook.worksheets@[cur_sheet(&old(self).model)].views@.contains_key(0) ==> r.is_ok(),
+        // a range with the selected cell at one of its corners is always accepted (what the paste operations ask for)
+        on_grid(start_row as int, start_column as int) && on_grid(end_row as int, end_column as int)
+            && old(self).model.workbook.worksheets@[cur_sheet(&old(self).model)].views@.contains_key(0)
+            && ({ let v = old(self).model.workbook.worksheets@[cur_sheet(&old(self).model)].views@[0];
+                  (v.row == start_row || v.row == end_row) && (v.column == start_column || v.column == end_column) })
+            ==> r.is_ok(),
 //@rewrite `) -> Result<(), String> {` => `) -> (r: Result<(), String>) {`
 //@end
 
@@ -522,6 +528,26 @@ pub fn on_navigate_write(&mut self, sheet: u32, new_row: i32, new_column: i32, t
                         decreases row
 //@end
 
+/// paste_csv_string / paste_from_clipboard, last step (it runs AFTER the cells were written and the undo entry pushed, so it must not
+/// fail: C04): the active cell is moved to the first pasted cell, which makes the range selection acceptable
+pub fn paste_csv_select(&mut self, area_row: i32, area_column: i32, row: i32, last_column: i32) -> (r: Result<(), String>)
+    requires sel_inv(&old(self).model), on_grid(area_row as int, area_column as int), on_grid(row - 1, last_column as int)
+    ensures r.is_ok(), sel_inv(&final(self).model)
+{
+//@fragment base/src/user_model/clipboard.rs UserModel::paste_csv_string `self.set_selected_cell(area.row, area.column)?;` .. `self.set_selected_range(area.row, area.column, row - 1, last_column)?;`
+//@rewritex2 `area.row` => `area_row`
+//@rewritex2 `area.column` => `area_column`
+//@end
+    Ok(())
+}
+pub fn paste_clipboard_select(&mut self, selected_row: i32, selected_column: i32, max_row: i32, max_column: i32) -> (r: Result<(), String>)
+    requires sel_inv(&old(self).model), on_grid(selected_row as int, selected_column as int), on_grid(max_row as int, max_column as int)
+    ensures r.is_ok(), sel_inv(&final(self).model)
+{
+//@fragment base/src/user_model/clipboard.rs UserModel::paste_from_clipboard `self.set_selected_cell(selected_row, selected_column)?;` .. `self.set_selected_range(selected_row, selected_column, max_row, max_column)?;`
+//@end
+    Ok(())
+}
 /// on_paste_styles, area step: the area that gets styled (and then selected) covers the old selected range, whichever way that range
 /// was dragged, and lies on the grid — checked BEFORE the first cell is styled (C04)
 pub fn on_paste_styles_area(range: [i32; 4], styles_height: i32, styles_width: i32) -> (r: Result<(i32, i32, i32, i32), String>)
